@@ -2,6 +2,7 @@ package p_states
 
 import (
 	"fmt"
+	"os"
 	"runtime"
 	"strings"
 	"sync"
@@ -9,9 +10,11 @@ import (
 	"time"
 
 	"github.com/spikeekips/mitum/base"
+	"github.com/spikeekips/mitum/isaac"
 	isaacstates "github.com/spikeekips/mitum/isaac/states"
 	"pgregory.net/rapid"
 	"verif/internal/ev"
+	"verif/internal/gen"
 )
 
 // c05State observes the record table and the record pool of one ballotbox (hook H1).
@@ -556,6 +559,466 @@ func c05Machine(rt *rapid.T, r *ev.Rec, st *c05State) (w *bbWorld, counted, late
 	return w, counted, lateGone
 }
 
+// ---- third generator: the box is advanced past a stage point WHILE that stage point is being counted.
+//
+// launch advances the box (SetLastPointFromVoteproof) from the states goroutine, at any moment relative to the goroutine that
+// counts a record. The harness owns two functions that the ballotbox calls while it handles a ballot and while it counts a
+// record: the threshold function and the suffrage lookup. An armed callback advances the box at its k-th call, i.e. at a
+// precise place inside the operation, without any dependence on the scheduler.
+
+type c05Arm struct {
+	mu      sync.Mutex
+	box     *isaacstates.Ballotbox
+	armed   bool
+	k       int // fire at the k-th callback call after arming
+	calls   int
+	advance func() bool
+
+	fired     bool
+	where     string // which callback fired, and the call number
+	ok        bool   // the advance was accepted by the box
+	before    []base.Voteproof
+	lvpBefore base.Voteproof
+}
+
+func (a *c05Arm) arm(k int, advance func() bool) {
+	a.mu.Lock()
+	defer a.mu.Unlock()
+
+	a.armed, a.k, a.calls, a.advance = true, k, 0, advance
+	a.fired, a.where, a.ok, a.before, a.lvpBefore = false, "", false, nil, nil
+}
+
+func (a *c05Arm) disarm() (fired bool, where string, ok bool, before []base.Voteproof, lvpBefore base.Voteproof, calls int) {
+	a.mu.Lock()
+	defer a.mu.Unlock()
+
+	a.armed = false
+
+	return a.fired, a.where, a.ok, a.before, a.lvpBefore, a.calls
+}
+
+// hit is called from inside the ballotbox (possibly under the count lock and a record's lock): it only touches the voteproof
+// channel, LastVoteproof and SetLastPoint, none of which needs a lock the caller can hold.
+func (a *c05Arm) hit(name string) {
+	a.mu.Lock()
+
+	if !a.armed {
+		a.mu.Unlock()
+
+		return
+	}
+
+	a.calls++
+
+	if a.calls != a.k {
+		a.mu.Unlock()
+
+		return
+	}
+
+	a.armed = false
+	box, advance, call := a.box, a.advance, a.calls
+	a.mu.Unlock()
+
+	// whatever is in the channel now was handed out before the advance
+	var before []base.Voteproof
+
+drain:
+	for {
+		select {
+		case vp := <-box.Voteproof():
+			before = append(before, vp)
+		default:
+			break drain
+		}
+	}
+
+	lvp := box.LastVoteproof()
+	ok := advance() // returns after the box has moved
+
+	a.mu.Lock()
+	a.fired, a.where, a.ok, a.before, a.lvpBefore = true, fmt.Sprintf("%s function, call %d after arming", name, call), ok, before, lvp
+	a.mu.Unlock()
+}
+
+// c05Quiet waits until no goroutine other than the caller is inside the ballotbox (or was started by it): read from the
+// goroutine stacks, not guessed from elapsed time. false = still busy when the wait budget ran out; the caller then gives no
+// verdict.
+func c05Quiet() bool {
+	buf := make([]byte, 1<<18)
+	deadline := time.Now().Add(20 * time.Second)
+
+	for i := 0; ; i++ {
+		n := runtime.Stack(buf, true)
+
+		switch {
+		case n >= len(buf):
+			buf = make([]byte, 2*len(buf))
+
+			continue
+		case !c05BoxBusy(string(buf[:n])):
+			return true
+		case time.Now().After(deadline):
+			return false
+		}
+
+		if i < 50 {
+			runtime.Gosched()
+		} else {
+			time.Sleep(100 * time.Microsecond)
+		}
+	}
+}
+
+func c05BoxBusy(stacks string) bool {
+	blocks := strings.Split(stacks, "\n\n")
+
+	for _, b := range blocks[1:] { // the first block is the calling goroutine
+		if strings.Contains(b, "mitum/isaac/states.(*Ballotbox)") || strings.Contains(b, "mitum/isaac/states.(*voterecords)") {
+			return true
+		}
+	}
+
+	return false
+}
+
+// c05AdvanceTarget: the voteproof (always a majority) the states would hand to the box to take it past the stage point p.
+func c05AdvanceTarget(w *bbWorld, p base.StagePoint, which string) base.Voteproof {
+	h, r := int64(p.Height()), uint64(p.Round())
+
+	switch {
+	case which == "nextRound":
+		return w.initVP(h, r+1)
+	case which == "nextStage" && p.Stage() == base.StageINIT:
+		return gen.FullACCEPTVoteproof(w.acceptFact(h, r, 0, nil), w.locals[:w.n], w.th, nil)
+	case which == "nextHeight" && p.Stage() == base.StageACCEPT:
+		return w.acceptVP(h + 1)
+	default: // next stage of an ACCEPT point, next height of an INIT point
+		return w.initVP(h+1, 0)
+	}
+}
+
+func c05AdvanceMachine(rt *rapid.T, r *ev.Rec, st *c05State) (w *bbWorld, counted, firedWhileCompleting int, classes []string) {
+	n := rapid.IntRange(3, 5).Draw(rt, "n")
+	th := base.Threshold(rapid.SampledFrom([]float64{67, 67, 60, 80, 100}).Draw(rt, "threshold"))
+	localIdx := rapid.SampledFrom([]int{0, 0, n}).Draw(rt, "localIdx")
+
+	w = newBBWorld(n, th, localIdx)
+	w.kinds = bbKindsC05
+
+	// the same box as newBBWorld makes, with the two functions the box calls back routed through the arm
+	arm := &c05Arm{}
+	w.box = isaacstates.NewBallotbox(w.locals[localIdx].Address(),
+		func() base.Threshold {
+			arm.hit("threshold")
+
+			return w.th
+		},
+		func(base.Height) (base.Suffrage, bool, error) {
+			arm.hit("suffrage")
+
+			if !w.sufFound.Load() {
+				return nil, false, nil
+			}
+
+			return w.suf, true, nil
+		})
+	w.box.SetCountAfter(time.Millisecond)
+	arm.box = w.box
+	w.baselineG = runtime.NumGoroutine()
+
+	st.attach(w)
+	defer st.detach()
+
+	hist := func() string { return strings.Join(w.history, "\n    ") }
+
+	judge := func(vps []base.Voteproof) {
+		for _, vp := range vps {
+			w.emitted = append(w.emitted, vp)
+
+			if bbCheckEmitted(rt, r, w, vp) {
+				counted++
+			}
+		}
+	}
+
+	check := func() {
+		judge(w.drain())
+		st.check(rt, r, w)
+	}
+
+	vote := func(d bbBallotDesc) {
+		if _, _, err := w.vote(d); err != nil {
+			rt.Fatalf("Vote error: %v", err)
+		}
+	}
+
+	episodes := rapid.IntRange(1, 3).Draw(rt, "episodes")
+	base0 := int64(rapid.IntRange(33, 35).Draw(rt, "baseHeight"))
+
+	for e := 0; e < episodes; e++ {
+		h := base0 + 2*int64(e) // an episode ends at height h+1 at most: the next one starts above it
+		d := bbBallotDesc{
+			Height:  h,
+			Round:   uint64(rapid.SampledFrom([]int{0, 0, 0, 1}).Draw(rt, "round")),
+			Kind:    rapid.SampledFrom([]string{"init", "init", "accept", "accept", "initExpel", "acceptExpel", "sc"}).Draw(rt, "kind"),
+			ExpelBy: "full",
+		}
+		p, _ := c05DescPoint(d)
+		plain := d.Kind == "init" || d.Kind == "accept"
+
+		var voters []int
+
+		for i := 0; i < w.n; i++ {
+			if plain || i != w.expelTarget() {
+				voters = append(voters, i)
+			}
+		}
+
+		voters = rapid.Permutation(voters).Draw(rt, "order")
+
+		req := (w.n*bbT10(w.th) + 999) / 1000 // votes for one fact that finish the tally (expel-carrying ballots: everybody who is left)
+		if !plain || req > len(voters) {
+			req = len(voters)
+		}
+
+		if d.Kind == "sc" {
+			req = min((w.n*bbT10(w.th)+999)/1000, len(voters))
+		}
+
+		dissent := -1 // one voter votes another fact
+		if d.Kind != "initExpel" && d.Kind != "acceptExpel" && rapid.IntRange(0, 4).Draw(rt, "dissent") == 0 {
+			dissent = rapid.IntRange(0, len(voters)-1).Draw(rt, "dissenter")
+		}
+
+		armedAt := req // the vote during which the box is advanced: mostly the one that completes the tally
+		if rapid.IntRange(0, 4).Draw(rt, "armAnyVote") == 0 {
+			armedAt = rapid.IntRange(1, len(voters)).Draw(rt, "armedAt")
+		}
+
+		if dissent >= 0 && dissent < armedAt && armedAt < len(voters) && rapid.Bool().Draw(rt, "armAfterDissent") {
+			armedAt++ // the dissenter's vote does not count for the majority fact
+		}
+
+		driver := rapid.SampledFrom([]string{"vote", "vote", "count", "vote", "vote", "count", "unvalidated"}).Draw(rt, "driver")
+		if driver == "unvalidated" && !c05UnvalidatedDriver() {
+			driver = "vote"
+		}
+
+		unvalidated := d // the ballot of the "unvalidated" driver: valid by itself, but not for the suffrage
+		unvalidated.Key = "wrongkey"
+
+		if driver == "unvalidated" {
+			if !plain && d.Kind != "sc" && rapid.Bool().Draw(rt, "expiredExpel") {
+				unvalidated.Key, unvalidated.ExpelBy = "", "expired"
+			}
+
+			if rapid.IntRange(0, 3).Draw(rt, "unvalidatedFirst") > 0 {
+				armedAt = 1 // no earlier vote has taken the box to the ballot's voteproof yet
+			}
+		}
+
+		k := rapid.SampledFrom([]int{1, 2, 3, 3, 4, 4, 5}).Draw(rt, "k")
+		if driver == "count" {
+			k = (k-1)%3 + 1 // Count() does not go through the two lookups a Vote makes before it counts
+		}
+
+		which := rapid.SampledFrom([]string{"nextStage", "nextRound", "nextHeight"}).Draw(rt, "target")
+		byPoint := rapid.Bool().Draw(rt, "bySetLastPoint")
+		position := rapid.SampledFrom([]string{"asIs", "previousBlock", "previousBlock"}).Draw(rt, "position")
+		target := c05AdvanceTarget(w, p, which)
+		tp := target.Point()
+
+		w.history = append(w.history, fmt.Sprintf("episode: %s@(%d,%d) voters %v dissenter %d; box at %s; during vote #%d (%s) the box is advanced to %v (%s, %s) at callback call %d",
+			d.Kind, d.Height, d.Round, voters, dissent, position, armedAt, driver, tp, which, map[bool]string{true: "SetLastPoint", false: "SetLastPointFromVoteproof"}[byPoint], k))
+
+		if position == "previousBlock" {
+			// where the states leave the box after the previous block (or the previous round's draw)
+			var vp base.Voteproof = w.acceptVP(h - 1)
+			if d.Round > 0 {
+				vp = w.drawACCEPTVP(h, d.Round-1)
+			}
+
+			w.box.SetLastPointFromVoteproof(vp)
+		}
+
+		desc := func(i int) bbBallotDesc {
+			di := d
+			di.Node = voters[i]
+
+			if i == dissent {
+				di.Kind += "X"
+			}
+
+			return di
+		}
+
+		same := 0 // votes for the majority fact before the armed vote
+
+		for i := 0; i < armedAt-1; i++ {
+			vote(desc(i))
+
+			if i != dissent {
+				same++
+			}
+
+			if !c05Quiet() {
+				return w, counted, firedWhileCompleting, append(classes, "adv-not-quiet:true")
+			}
+		}
+
+		check()
+
+		completing := armedAt-1 != dissent && same < req && same+1 >= req
+
+		advance := func() bool {
+			if byPoint {
+				lp, err := isaac.NewLastPoint(tp, true, false)
+				if err != nil {
+					return false
+				}
+
+				return w.box.SetLastPoint(lp)
+			}
+
+			return w.box.SetLastPointFromVoteproof(target)
+		}
+
+		// ---- the armed operation. Nothing else runs inside the box: every voteproof handed out from now on is handed out
+		// either before the advance (collected inside the callback, just before it advances) or after the advance has returned.
+		switch driver {
+		case "vote":
+			arm.arm(k, advance)
+			vote(desc(armedAt - 1))
+		case "unvalidated":
+			// a ballot the box does not accept for the suffrage (signed with a key that is not the node's, or carrying an
+			// expel operation that is out of date at its height): nothing is recorded, but the box looks at the voteproof
+			// the ballot carries, in a goroutine of its own
+			completing = false
+			unvalidated.Node = voters[armedAt-1]
+			arm.arm(k, advance)
+			vote(unvalidated)
+		default:
+			// the vote arrives while the suffrage is not known yet (it is stored uncounted); the count that completes the
+			// tally is a Count() call
+			w.sufFound.Store(false)
+			vote(desc(armedAt - 1))
+
+			if !c05Quiet() {
+				return w, counted, firedWhileCompleting, append(classes, "adv-not-quiet:true")
+			}
+
+			w.sufFound.Store(true)
+			w.history = append(w.history, "count (armed)")
+			arm.arm(k, advance)
+			w.box.Count()
+		}
+
+		quiet := c05Quiet()
+		fired, where, ok, before, lvpBefore, calls := arm.disarm()
+
+		if !quiet {
+			return w, counted, firedWhileCompleting, append(classes, "adv-not-quiet:true")
+		}
+
+		after := w.drain()
+		w.history = append(w.history, fmt.Sprintf("advance fired=%v (%s; %d callback calls) accepted=%v; voteproofs handed out before the advance %v, after it %v",
+			fired, where, calls, ok, c05VPPoints(before), c05VPPoints(after)))
+
+		if fired && ok {
+			// the advance returned before any of `after` was handed out: no voteproof of a stage point below the (majority)
+			// point the box was taken to may be among them
+			sig, sigLVP := "passed-point-voteproof-after-advance", "last-voteproof-replaced-by-passed-point"
+			if driver == "unvalidated" {
+				sig, sigLVP = "ballot-voteproof-after-advance", "ballot-voteproof-after-advance"
+			}
+
+			for _, vp := range after {
+				if vp.Point().Compare(tp) < 0 {
+					r.Violation(rt, sig, "the ballotbox was advanced to %v (majority; accepted) inside the %s; after that advance had returned, the box handed out "+
+						"the voteproof of %v on Voteproof(): the record of a stage point the box has moved past was still consulted\n  vp=%s\n  history:\n    %s", tp, where, vp.Point(), bbDescVP(vp), hist())
+				}
+			}
+
+			if lvp := w.box.LastVoteproof(); lvp != nil && (lvpBefore == nil || lvp.ID() != lvpBefore.ID()) && lvp.Point().Compare(tp) < 0 {
+				r.Violation(rt, sigLVP, "the ballotbox was advanced to %v (majority; accepted) inside the %s; after that, LastVoteproof() was replaced by the voteproof of %v, "+
+					"a stage point the box has moved past (LastPoint() is %v)\n  history:\n    %s", tp, where, lvp.Point(), w.box.LastPoint().StagePoint, hist())
+			}
+		}
+
+		judge(before)
+		judge(after)
+
+		if fired && ok {
+			classes = append(classes, "adv-fired:true")
+
+			if completing {
+				firedWhileCompleting++
+			}
+
+			// not consulted later either
+			if last := w.box.LastPoint(); last.StagePoint.Equal(tp) {
+				w.history = append(w.history, "count")
+				w.box.Count()
+
+				later := w.drain()
+
+				for _, vp := range later {
+					if vp.Point().Compare(tp) < 0 {
+						r.Violation(rt, "passed-point-counted-after-advance", "the ballotbox is at %v (majority) since the advance inside the %s; a later Count() handed out the voteproof of %v, "+
+							"a stage point the box has moved past\n  vp=%s\n  history:\n    %s", tp, where, vp.Point(), bbDescVP(vp), hist())
+					}
+				}
+
+				judge(later)
+			}
+		}
+
+		st.check(rt, r, w)
+
+		// the votes that are left arrive late
+		for i := armedAt; i < len(voters); i++ {
+			vote(desc(i))
+		}
+
+		if rapid.Bool().Draw(rt, "replay") {
+			vote(desc(rapid.IntRange(0, len(voters)-1).Draw(rt, "replayed")))
+		}
+
+		if !c05Quiet() {
+			return w, counted, firedWhileCompleting, append(classes, "adv-not-quiet:true")
+		}
+
+		check()
+	}
+
+	w.box.Count()
+
+	if c05Quiet() {
+		check()
+	}
+
+	return w, counted, firedWhileCompleting, classes
+}
+
+// c05UnvalidatedDriver: the "unvalidated" driver of phase 3 (the box is advanced while it handles, in its deferred goroutine, a
+// ballot that it did not validate for the suffrage) finds a defect on the tree as of 07e1ede: the deferred function of
+// Ballotbox.vote reads the last point, then calls the threshold function and the suffrage lookup, and hands out the ballot's
+// voteproof judged by the last point it read before (signature ballot-voteproof-after-advance; proposed fix
+// /verif/mutants/proposed-fix-C05-deferred-voteproof-stale-last.diff). The driver is off until the maintainer has decided
+// (fix in /repo, or a known-finding line); VERIF_C05_UNVALIDATED=1 switches it on.
+func c05UnvalidatedDriver() bool { return os.Getenv("VERIF_C05_UNVALIDATED") != "" }
+
+func c05VPPoints(vps []base.Voteproof) []string {
+	ss := make([]string, len(vps))
+	for i := range vps {
+		ss[i] = vps[i].Point().String()
+	}
+
+	return ss
+}
+
 func TestC05(t *testing.T) {
 	r := ev.Start(t, "C05")
 	defer r.Finish()
@@ -568,12 +1031,20 @@ func TestC05(t *testing.T) {
 		"the table must not hold a record of a finished point that the point did not have when it became finished (never re-created), only those records may be released and each once (no second release of the " +
 		"point, no release of a suffrage-confirm record that never was live), and Voted/MissingNodes/StuckVoteproof answer nothing for a finished point with no record left; Voted/MissingNodes only speak about " +
 		"their own stage point; emitted voteproofs are judged as in C04. " +
+		"phase 3 (advance while counting): 1-3 episodes on rising heights; in each a stage point P (INIT/ACCEPT, expel-carrying, suffrage-confirm; round 0/1) is voted node by node (drawn order, sometimes a dissenter) " +
+		"and during one vote (mostly the one that completes P's tally; driven by Vote, or by Count() after the vote was stored while the suffrage was unknown) the harness-owned threshold / suffrage-lookup function that the " +
+		"box calls advances the box at its k-th call (k drawn) past P, to a majority point of the next stage, next round or next height, by SetLastPoint or SetLastPointFromVoteproof, as launch does from the states goroutine; " +
+		"the box is quiet before the armed operation (read from the goroutine stacks), voteproofs handed out before the advance are taken from the channel inside the callback just before it advances: " +
+		"every voteproof received afterwards was handed out after the advance returned and must not be of a stage point below the point the box was taken to, LastVoteproof() must not be replaced by such a voteproof, " +
+		"and a later Count() must not hand one out (event order only, no timing). " +
 		"non-trivial = phase 1: history with >=2 counted voteproofs (>=2 cleanup cycles) and a suffrage-confirm ballot; phase 2: >=3 counted voteproofs, >=1 legitimate release of a finished point's record and " +
-		">=1 late ballot for a finished point with no record left; distinct by history")
+		">=1 late ballot for a finished point with no record left; phase 3: >=1 accepted advance that fired during the vote that (by the reference tally) completes the tally of P; distinct by history")
 	r.Floor(15)
 	r.Assume("ballots satisfy bl.IsValid(networkID)", "record identity = object address observed through the verif hook; pool re-use of an address for a new record is legitimate",
 		"'moved past a stage point' is judged only across heights (LastPoint() never returns to a lower height); inside one height the box re-admits some lower points on purpose "+
-			"(suffrage-confirm ballots after a draw), those are not judged")
+			"(suffrage-confirm ballots after a draw), those are not judged",
+		"phase 3: the advance targets are majority points (what the states set after a majority voteproof); with a majority last point every lower stage point is unambiguously passed, also for suffrage-confirm records; "+
+			"an advance made from inside the threshold / suffrage-lookup function stands for an advance by another goroutine that lands at that place of the count")
 
 	r.Checks(120, 6000)
 	r.Steps(50)
@@ -624,6 +1095,31 @@ func TestC05(t *testing.T) {
 		if nontrivial && r.WantSample() {
 			r.Sample(map[string]any{"phase": "walk", "n": w.n, "threshold": w.th.Float64(), "history": w.history, "counted_voteproofs": counted, "pool_puts": st.puts,
 				"late_ballots_after_release": lateGone, "releases_of_finished_points": st.relFin})
+		}
+	})
+
+	if r.Failed() {
+		return
+	}
+
+	// ---- third phase: the box is advanced past a stage point while that stage point is being counted
+	r.Checks(100, 4000)
+
+	phase3 := time.Now()
+	defer func() { t.Logf("phase 3 took %v", time.Since(phase3)) }()
+
+	rapid.Check(t, func(rt *rapid.T) {
+		st := &c05State{}
+		w, counted, firedWhileCompleting, classes := c05AdvanceMachine(rt, r, st)
+
+		nontrivial := firedWhileCompleting >= 1
+		r.Case("advance;"+strings.Join(w.history, ";"), nontrivial, append(classes, "phase:advance", fmt.Sprintf("adv-during-completing-vote:%v", nontrivial))...)
+		r.Class("pool_puts", int64(st.puts))
+		r.Class("advances_during_completing_count", int64(firedWhileCompleting))
+
+		if nontrivial && r.WantSample() {
+			r.Sample(map[string]any{"phase": "advance", "n": w.n, "threshold": w.th.Float64(), "history": w.history, "counted_voteproofs": counted,
+				"advances_during_completing_count": firedWhileCompleting})
 		}
 	})
 }
